@@ -53,6 +53,7 @@ public:
     virtual void receive(int op, bool with_slot) = 0;
     virtual void disconnect(int op, uint8_t rc, const mq::disconnect_props& props, bool with_slot) = 0;
     virtual void cancel() = 0;
+    virtual void re_authenticate() = 0;          // mqtt_client::re_authenticate() (no completion handler)
     virtual void destroy() = 0;                  // destroys the mqtt_client object
     virtual bool alive() const = 0;
     virtual void emit_signal(int op, SigType type) = 0;
